@@ -103,9 +103,7 @@ impl Space for PlainValues {
                     }
                 }
             }
-            if sm_default_display(&date) != format!("{dtext}{}", calendar_annotation(cal_id, ShowCal::Auto)) {
-                out.fail("display≠auto", vec![("type", "PlainDate".into()), ("date", dtext.clone()), ("calendar", cal_id.to_string())]);
-            }
+            out.law("Display = auto text", sm_default_display(&date) == format!("{dtext}{}", calendar_annotation(cal_id, ShowCal::Auto)), || vec![("type", "PlainDate".into()), ("date", dtext.clone()), ("calendar", cal_id.to_string())]);
         }
         // ---- PlainDateTime x times x precision x mode (ISO + one other calendar)
         for (k, t) in self.times.iter().enumerate() {
